@@ -394,6 +394,7 @@ func recvIs(fa *ssa.FieldAddr, n *types.Named) bool {
 }
 
 func c05ConfigProvenance(w *World, r *Report) {
+	helperDepth := 0
 	var fromManager func(v ssa.Value) (bool, string)
 	fromManager = func(v ssa.Value) (bool, string) {
 		for _, root := range provenance(v, provOpts{}) {
@@ -417,6 +418,38 @@ func c05ConfigProvenance(w *World, r *Report) {
 				if c, ok := x.Tuple.(ssa.CallInstruction); ok {
 					if f := sCallee(c); f != nil && f.Name() == "GetTlsConfig" {
 						continue
+					}
+					// a module helper that hands the manager's configuration on: every non-nil config it returns
+					// must itself come from the manager (or be the no-manager fallback literal)
+					if sc := c.Common().StaticCallee(); sc != nil && inModule(sc) && len(sc.Blocks) > 0 && x.Index == 0 && helperDepth < 2 {
+						helperDepth++
+						okAll, why := true, ""
+						allInstrs(sc, func(in ssa.Instruction) {
+							ret, isRet := in.(*ssa.Return)
+							if !isRet || len(ret.Results) == 0 || isConstNil(ret.Results[0]) {
+								return
+							}
+							if okm, w2 := fromManager(ret.Results[0]); !okm {
+								if w2 == "literal tls.Config" {
+									mgr := fieldOf(w.Named("internal/socketace", "ClientConnection"), "manager")
+									lit := true
+									for _, r2 := range provenance(ret.Results[0], provOpts{}) {
+										if al, isAl := r2.(*ssa.Alloc); isAl && !dominatedByNilField(sc, al, mgr) {
+											lit = false
+										}
+									}
+									if lit {
+										return
+									}
+								}
+								okAll, why = false, w2
+							}
+						})
+						helperDepth--
+						if okAll {
+							continue
+						}
+						return false, why
 					}
 				}
 				return false, "value is not a GetTlsConfig() result"
